@@ -125,11 +125,13 @@ func history(x *mon.Ctx) {
 	per := x.Scale(360, 5400) // histories per configuration (28 configurations)
 	for i := 0; i < per; i++ {
 		for _, g := range cfgs {
-			c := x.Begin("history cfg=%s #%d (constructor inputs, 12-30 operations and their arguments are drawn from the case PRNG; the operation list is attached to a violation)", g.name(), i)
+			hp := planHistory(x, g, i)
+			c := x.Begin("history cfg=%s #%d level=%s constructor=%s entropy=%d nonce=%d pers=%d(nil=%v) ops=%d (operations and arguments are drawn from the case PRNG; the operation list is attached to a violation)",
+				g.name(), i, hp.lv.ref.Name, entryName(g, hp.entry), hp.le, hp.ln, hp.lp, hp.nilPers, hp.nops)
 			if c == nil {
 				continue
 			}
-			oneHistory(x, c, g)
+			oneHistory(x, c, g, hp)
 			c.End()
 		}
 	}
@@ -147,22 +149,54 @@ func history(x *mon.Ctx) {
 	}
 }
 
-func oneHistory(x *mon.Ctx, c *mon.Case, g cfg) {
-	r := c.R
-	lv := levelTest
+// histPlan holds the parameters of a history that are part of the case description. They are
+// drawn from a generator keyed by (seed, configuration, index) before Begin so that every process
+// prints the same description; everything else comes from the case PRNG.
+type histPlan struct {
+	lv         level
+	entry      int
+	le, ln, lp int
+	nilPers    bool
+	nops       int
+}
+
+func planHistory(x *mon.Ctx, g cfg, i int) histPlan {
+	r := mon.NewRand(x.Seed, "c17.history.plan", g.name(), i)
+	hp := histPlan{lv: levelTest}
 	switch r.Intn(24) {
 	case 0:
-		lv = levelTwo
+		hp.lv = levelTwo
 	case 1:
-		lv = levelOne
+		hp.lv = levelOne
 	}
-	entry := r.Intn(2)
+	hp.entry = r.Intn(2)
 	minE, minN := g.nominal()
-	pinv := 20
-	le, ln := pickLen(r, minE, pinv), pickLen(r, minN, pinv)
-	lp := []int{0, 0, 0, 1, minE - 1, minE, 2 * minE, 200}[r.Intn(8)]
+	hp.le, hp.ln = pickLen(r, minE, 20), pickLen(r, minN, 20)
+	hp.lp = []int{0, 0, 0, 1, minE - 1, minE, 2 * minE, 200}[r.Intn(8)]
+	hp.nilPers = hp.lp == 0 && r.Bool()
+	hp.nops = r.Range(12, 30)
+	return hp
+}
+
+// entryName names the constructor newLib will use.
+func entryName(g cfg, entry int) string {
+	gm := g.mode == ref.GM
+	base := map[string]string{"hash": "HashDrbg", "hmac": "HmacDrbg", "ctr": "CtrDrbg"}[g.mech]
+	switch {
+	case entry == 1 && !gm:
+		return "NewNIST" + base
+	case entry == 1 && gm && (g.mech == "hash" && g.alg == "sm3" || g.mech == "ctr" && g.alg == "sm4"):
+		return "NewGM" + base
+	}
+	return "New" + base
+}
+
+func oneHistory(x *mon.Ctx, c *mon.Case, g cfg, hp histPlan) {
+	r := c.R
+	lv, entry, le, ln, lp := hp.lv, hp.entry, hp.le, hp.ln, hp.lp
+	minE, minN := g.nominal()
 	var ps []byte
-	if lp > 0 || r.Bool() {
+	if !hp.nilPers {
 		ps = r.Bytes(lp)
 	}
 	p := instantiate(c, g, lv, entry, r.Bytes(le), r.Bytes(ln), ps)
@@ -183,7 +217,7 @@ func oneHistory(x *mon.Ctx, c *mon.Case, g cfg) {
 		p.fail("mismatch", "%s MaxBytesPerRequest()=%d; documented: %d", g.name(), got, want)
 		return
 	}
-	nops := r.Range(12, 30)
+	nops := hp.nops
 	crossings := 0
 	refusals := 0
 	for op := 0; op < nops && !p.dead; op++ {
